@@ -45,6 +45,7 @@ type ringInt struct {
 	}
 	raw func() []int
 	pos func() (int, int, int)
+	calls int
 }
 
 func newRingInt(c int) ringObj {
@@ -54,7 +55,39 @@ func newRingInt(c int) ringObj {
 }
 func (x *ringInt) Write(v int) error  { return x.r.Write(v) }
 func (x *ringInt) Read() (int, error) { return x.r.Read() }
-func (x *ringInt) ReadN(n int) []int  { d := make([]int, n); k := x.r.ReadN(d); return d[:k] }
+// ReadN hands over a destination with SPARE CAPACITY behind its length (a window of a larger array, as callers that
+// read in batches have): the call may fill d[0:len(d)] and nothing else.  A count above len(d) comes back as that
+// many elements, a write behind the window as one more element (-999) - neither is a reply the contract knows.
+func (x *ringInt) ReadN(n int) []int {
+	x.calls++
+	spare := (x.calls % 3) * 4
+	back := make([]int, n+spare)
+	for i := n; i < len(back); i++ {
+		back[i] = -777
+	}
+	k := x.r.ReadN(back[:n])
+	if k < 0 || k > len(back) {
+		return []int{-998, k}
+	}
+	res := append([]int{}, back[:k]...)
+	from := n
+	if k > n {
+		from = k
+	}
+	for i := from; i < len(back); i++ {
+		if back[i] != -777 {
+			return append(res, -999)
+		}
+	}
+	if k <= n {
+		for i := n; i < len(back); i++ {
+			if back[i] != -777 {
+				return append(res, -999)
+			}
+		}
+	}
+	return res
+}
 func (x *ringInt) Skip(n int) int     { return x.r.Skip(n) }
 func (x *ringInt) At(i int) int       { return x.r.At(i) }
 func (x *ringInt) Clear()             { x.r.Clear() }
